@@ -266,7 +266,7 @@ def main(tier):
     ev.assumptions = ["no reference cycles are generated; no reference to an element of a temporary container, to a catch variable, or to a function's local returned by "
                       "reference is kept beyond the statement (script-author errors with C++-like meaning, outside the property's 'created on behalf of a script ... still "
                       "referred to' wording; the engine does hand out such references, see DESIGN.md)", "evaluated on the thread that owns the engine"]
-    n = 4000 if tier == "quick" else 200000
+    n = 4000 if tier == "quick" else 80000
     failures = hyp.run("c11", ev, tier, n)
     confirmed = hyp.confirm("c11", failures, PID)
     for p, what in confirmed:
